@@ -11,6 +11,11 @@ package conversation_test
 // of the channel is unread iff it is committed (1 <= s <= last committed), visible (at or
 // after the join point, above the delete-to boundary, above the retention boundary), above
 // the read cursor and above the user's own last send.
+//
+// In the histories the delete-to boundary of the specification is NOT the stored field: it
+// is the reference model's own boundary, the highest channel head at which a
+// DeleteConversation succeeded. A delete that silently does nothing (or hides too much)
+// therefore disagrees with the specification even though List is consistent with the row.
 
 import (
 	"context"
@@ -368,6 +373,10 @@ type c34Inst struct {
 	tick int64
 	// bookkeeping of the oracle
 	maxRead uint64 // highest read cursor ever stored
+	// delTo is the reference delete-to boundary: the highest last-committed sequence at
+	// which a DeleteConversation of this user succeeded (0 = never deleted)
+	delTo   uint64
+	deletes int // successful deletes so far (label of the violation message only)
 	other   meta.UserChannelMembership
 }
 
@@ -375,6 +384,10 @@ const (
 	c34Chan  = "g-main"
 	c34Other = "g-other" // a second, untouched conversation of the same user
 )
+
+// c34RepeatedDeletes counts executed successful deletes of an already hidden row
+// (activated_at == 0, deleted_to_seq != 0) at a higher channel head (vacuity guard only).
+var c34RepeatedDeletes atomic.Int64
 
 var c34OtherHead = c34Head{Committed: 3, Retention: 0, OwnLast: 1, HasLast: true, LastSeq: 3}
 
@@ -528,6 +541,16 @@ func (x *c34Inst) Apply(event string, env *mc.Env) (string, error) {
 	if cmdErr != nil {
 		return name, mc.Violatef("C34:command-failed:"+name, "%s returned %v (row %s; head %s)", event, cmdErr, c34RowStr(before), c34HeadStr(x.head))
 	}
+	if event == "delete" {
+		// the user deleted everything committed so far; Check judges List/Retry against it
+		x.deletes++
+		if before.ActivatedAt == 0 && before.DeletedToSeq != 0 && x.head.Committed > before.DeletedToSeq {
+			c34RepeatedDeletes.Add(1) // an already hidden conversation reappeared through new messages and is deleted again
+		}
+		if x.head.Committed > x.delTo {
+			x.delTo = x.head.Committed
+		}
+	}
 	it, _, err := x.list()
 	if err != nil {
 		return name, mc.Violatef("C34:list-failed", "List after %s: %v", event, err)
@@ -546,6 +569,31 @@ func (x *c34Inst) Apply(event string, env *mc.Env) (string, error) {
 	return fmt.Sprintf("%s:listed=%v,unread=%d", name, listed, unread), nil
 }
 
+// checkItem judges one returned conversation of the main channel against the counting
+// specification with the MODEL delete-to boundary. When the answer is wrong only because the
+// stored boundary differs from what the user deleted through, the violation gets its own
+// fingerprint.
+func (x *c34Inst) checkItem(api string, it conversation.Conversation, row meta.UserChannelMembership) error {
+	spec := row
+	spec.DeletedToSeq = x.delTo
+	err := c34CheckItem(api, it, spec, x.head)
+	if err == nil || row.DeletedToSeq == x.delTo || c34CheckItem(api, it, row, x.head) != nil {
+		return err
+	}
+	v := err.(*mc.V)
+	kind, what := "below", "messages the user deleted are counted / shown again"
+	if row.DeletedToSeq > x.delTo {
+		kind, what = "above", "messages the user never deleted are hidden"
+	}
+	sym := "unread"
+	if strings.HasPrefix(v.FP, "C34:hidden-message-shown-as-last") {
+		sym = "last-message"
+	}
+	return mc.Violatef("C34:delete-boundary-"+kind+"-deleted-messages:"+sym+":"+api,
+		"%s: after %d successful DeleteConversation(s) the user has deleted through seq %d but the stored deleted_to_seq is %d: %s [%s]",
+		api, x.deletes, x.delTo, row.DeletedToSeq, what, v.Msg)
+}
+
 func (x *c34Inst) Check() error {
 	row, err := x.row()
 	if err != nil {
@@ -559,7 +607,7 @@ func (x *c34Inst) Check() error {
 		return mc.Violatef("C34:list-failed", "List: %v", err)
 	}
 	if it != nil {
-		if err := c34CheckItem("List", *it, row, x.head); err != nil {
+		if err := x.checkItem("List", *it, row); err != nil {
 			return err
 		}
 	}
@@ -584,7 +632,7 @@ func (x *c34Inst) Check() error {
 		return mc.Violatef("C34:list-and-retry-disagree", "List lists=%v, Retry items=%d (row %s; head %s)", it != nil, len(rt.Items), c34RowStr(row), c34HeadStr(x.head))
 	}
 	if len(rt.Items) == 1 {
-		if err := c34CheckItem("Retry", rt.Items[0], row, x.head); err != nil {
+		if err := x.checkItem("Retry", rt.Items[0], row); err != nil {
 			return err
 		}
 	}
@@ -608,7 +656,7 @@ func (x *c34Inst) Canon() string {
 	if err != nil {
 		return ""
 	}
-	return fmt.Sprintf("%s|%s|maxread=%d", c34RowStr(row), c34HeadStr(x.head), x.maxRead)
+	return fmt.Sprintf("%s|%s|maxread=%d|deleted_through=%d", c34RowStr(row), c34HeadStr(x.head), x.maxRead, x.delTo)
 }
 
 // ---------------------------------------------------------------- test entry
@@ -653,6 +701,8 @@ func TestVerifC34(t *testing.T) {
 	}
 	sort.Strings(names)
 	r.Guard("mc/states", minStates >= 300, "states per system: %v", names)
+	r.Guard("mc/repeated-delete-of-hidden-conversation", c34RepeatedDeletes.Load() >= 20, "%d executed deletes of an already hidden conversation at a higher channel head (delete ; sends without activation ; delete)", c34RepeatedDeletes.Load())
+	r.Assume("delete-to boundary of the specification (histories): the highest last-committed sequence at which a DeleteConversation succeeded, kept by the reference model; the stored deleted_to_seq is not trusted (a delete that does nothing, or hides more than the head, contradicts the counting specification in the next List/Retry)")
 	r.Assume("the membership store behind the usecase ports is the real pkg/db/meta shard (direct Shard methods; ActivateUserChannelMembership maps to SetUserChannelMembershipActivatedAt as the C16 direct driver does); the cluster/Slot-FSM route to the same table is covered by C16")
 	r.Assume("join point: join_seq is the first visible sequence (join_seq 0 = everything visible), so the join floor is join_seq-1; delete-to and retention boundaries hide sequences <= the boundary")
 	r.Assume("SetUnread(N) is demanded to leave at most N unread (the property's wording), not exactly min(previous, N)")
